@@ -5,6 +5,7 @@
 package hs
 
 import (
+	"fmt"
 	"io"
 	"time"
 
@@ -23,6 +24,7 @@ type Scenario struct {
 	KeyListed bool   // the client's certified key is in the server's authorized-key set
 	Revoked   bool   // … it was, and has been removed again before the handshake
 	NoName    bool   // the client does not ask for a particular server name
+	Decoys    int    // hidden mode: certificates of other virtual hosts ahead of the real one in the server's list
 }
 
 // Result is what the endpoints concluded.
@@ -131,6 +133,34 @@ func BuildServer(sc Scenario) (*tnet.Srv, *keys.KEMPublicKey, *transport.VerifyC
 	scfg := transport.ServerConfig{
 		KeyPair: sHeld, KEMKeyPair: kem, Certificate: sLeaf, Intermediate: sInter, ClientVerify: cv,
 		IsHidden: sc.Hidden, MaxPendingConnections: 4,
+	}
+	if sc.Hidden && sc.Decoys > 0 {
+		// several virtual hosts: the request is tried against every certificate of the list in turn; the
+		// one the client addressed comes last
+		rawLeaf, _ := sLeaf.Marshal()
+		var rawInter []byte
+		if sInter != nil {
+			rawInter, _ = sInter.Marshal()
+		}
+		real := &transport.Certificate{RawLeaf: rawLeaf, RawIntermediate: rawInter, Exchanger: sHeld, KEMKeyPair: kem,
+			Leaf: sLeaf, HostNames: []string{tnet.ServerName}}
+		var list []*transport.Certificate
+		for i := 0; i < sc.Decoys; i++ {
+			dk := keys.GenerateNewX25519KeyPair()
+			dkem, err := keys.GenerateKEMKeyPair(randReader{})
+			if err != nil {
+				panic(err)
+			}
+			name := fmt.Sprintf("decoy%d.example", i)
+			dl := p.Leaf(dk.Public, certs.RawStringName(name))
+			rl, _ := dl.Marshal()
+			ri, _ := p.Inter.Marshal()
+			list = append(list, &transport.Certificate{RawLeaf: rl, RawIntermediate: ri, Exchanger: dk, KEMKeyPair: dkem, Leaf: dl,
+				HostNames: []string{name}})
+		}
+		list = append(list, real)
+		scfg.GetCertificate = func(transport.ClientHandshakeInfo) (*transport.Certificate, error) { return real, nil }
+		scfg.GetCertList = func() ([]*transport.Certificate, error) { return list, nil }
 	}
 	pub := kem.Public
 	return tnet.NewSrv(scfg), &pub, cv
